@@ -397,6 +397,10 @@ def prog_constructors():
     out.append(('SpecificationBase(1)', attempt(lambda: type(SpecificationBase(1)).__name__)))
     out.append(('LookupBase()', attempt(lambda: type(LookupBase()).__name__)))
     out.append(('LookupBase().changed(None)', attempt(lambda: LookupBase().changed(None))))
+    out.append(('LookupBase().changed()', attempt(lambda: LookupBase().changed())))
+    out.append(('LookupBase().changed(ignored=1)', attempt(lambda: LookupBase().changed(ignored=1))))
+    out.append(('LookupBase().changed(1, 2)', attempt(lambda: LookupBase().changed(1, 2))))
+    out.append(('LookupBase().changed(bogus=1)', attempt(lambda: LookupBase().changed(bogus=1))))
     return out
 
 
